@@ -9,6 +9,7 @@
      3. the weighted form the code uses                 endpoint_terms_vanish, gcl_weighted_exact *)
 
 From Coq Require Import Reals List Lra Lia Arith.
+Set Warnings "-ambiguous-paths".
 From Coquelicot Require Import Coquelicot.
 Local Open Scope R_scope.
 
